@@ -69,6 +69,8 @@ def translate_c_to_projectq(source_circuit):
         elif gate.name in {"RX", "RY", "RZ", "PHASE"}:
             projectq_circuit += f"{GATE_PROJECTQ[gate.name]}({gate.parameter}) | Qureg[{gate.target[0]}]\n"
         elif gate.name in {"CNOT"}:
+            if len(gate.control) > 1:
+                raise ValueError(f"Multi-controlled gates not supported with projectQ. Gate {gate.name} with controls {gate.control} is not allowed")
             projectq_circuit += f"{GATE_PROJECTQ[gate.name]} | ( Qureg[{gate.control[0]}], Qureg[{gate.target[0]}] )\n"
         else:
             raise ValueError(f"Gate '{gate.name}' not supported on backend projectQ")
@@ -115,7 +117,7 @@ def translate_c_from_projectq(projectq_str):
 
         if gate_name in {"H", "X", "Y", "Z", "S", "T"}:
             gate = Gate(gate_mapping[gate_name], qubit_indices[0])
-        elif gate_name in {"Rx", "Ry", "Rz", "PHASE"}:
+        elif gate_name in {"Rx", "Ry", "Rz", "R"}:
             gate = Gate(gate_mapping[gate_name], qubit_indices[0], parameter=parameters[0])
         # #TODO: Rethink the use of enums for gates to set the equality CX=CNOT and enable other refactoring
         elif gate_name in {"CX"}:
